@@ -175,6 +175,11 @@ SampleClass(gumbel, hard, training, w) ==
     THEN (IF hard THEN [c |-> "hotany", at |-> 0] ELSE [c |-> "prob", at |-> 0])
     ELSE (IF hard THEN [c |-> "hot", at |-> w] ELSE [c |-> "soft", at |-> w])
 
+\* SampleImpl = "ref": every block samples, so a block with ONE branch always stores <<1>> whatever its
+\* coefficient; "nosample1": combiner.forward returns the only branch output before sampling
+SampleClassI(simpl, n, gumbel, hard, training, w) ==
+    IF simpl = "nosample1" /\ n = 1 THEN [c |-> "raw", at |-> 0] ELSE SampleClass(gumbel, hard, training, w)
+
 \* "hard selection" in the sense of C06: the stored vector is the one-hot of the arg-max
 HardSelection(gumbel, hard, training) == hard /\ ~(gumbel /\ training)
 
@@ -187,6 +192,9 @@ ThetaSet(cls, n, D) ==
       [] cls.c = "hotany" -> {OneHot(n, w, D) : w \in 0..(n - 1)}
       [] cls.c = "soft"   -> {t \in Comps(n, D) : \A j \in 1..n : j # cls.at + 1 => t[cls.at + 1] > t[j]}
       [] cls.c = "prob"   -> Comps(n, D)
+      \* defective variant only (SampleImpl = "nosample1"): a one-branch block that never samples keeps the
+      \* raw coefficient as its weight
+      [] cls.c = "raw"    -> {[i \in 1..n |-> k] : k \in 0..(2 * D)}
 
 RECURSIVE Prod(_, _)                   \* cartesian product of sets[1..k] as sequences
 Prod(sets, k) == IF k = 0 THEN {<<>>}
